@@ -40,6 +40,10 @@ LINTER_SECTIONS = [
     "stateless-class",
     "pipeline",
     "lazy-ignores",
+    "performance",
+    "unwrap-abuse",
+    "clone-abuse",
+    "blocking-async",
 ]
 
 
@@ -154,7 +158,13 @@ def identify_missing_sections(existing_config: dict, all_sections: list[str]) ->
     Returns:
         List of section names missing from existing config
     """
-    return [s for s in all_sections if s not in existing_config]
+    present = {_normalize_section_name(key) for key in existing_config}
+    return [s for s in all_sections if _normalize_section_name(s) not in present]
+
+
+def _normalize_section_name(name: object) -> str:
+    """Spell a section name the way the config parser does (magic_numbers == magic-numbers)."""
+    return str(name).replace("_", "-")
 
 
 def _find_global_settings_position(content: str) -> int:
@@ -206,6 +216,26 @@ def _build_missing_sections_dict(
     return {name: template_sections[name] for name in missing_names if name in template_sections}
 
 
+def _ensure_merge_keeps_settings(existing_config: dict, merged_content: str, output: str) -> None:
+    """Refuse to write a merge result that is not valid YAML or changes an existing setting.
+
+    Sections are merged as text, which only works for block-style files (not for a
+    flow-style or indented top-level mapping).
+    """
+    try:
+        merged_config = yaml.safe_load(merged_content)
+    except yaml.YAMLError:
+        merged_config = None
+    if isinstance(merged_config, dict) and all(
+        key in merged_config and merged_config[key] == value
+        for key, value in existing_config.items()
+    ):
+        return
+    click.echo(f"Error: Could not add sections to {output} without changing it", err=True)
+    click.echo("Use --force to overwrite with a fresh config", err=True)
+    sys.exit(1)
+
+
 def _report_merge_results(missing_names: list[str], output: str) -> None:
     """Report which sections were added."""
     click.echo(f"Added {len(missing_names)} missing linter section(s) to {output}:")
@@ -236,6 +266,7 @@ def perform_merge(
 
     missing_sections = _build_missing_sections_dict(missing_names, template_sections)
     merged_content = merge_config_sections(existing_content, missing_sections)
+    _ensure_merge_keeps_settings(existing_config, merged_content, output)
     output_path.write_text(merged_content, encoding="utf-8")
 
     _report_merge_results(missing_names, output)
